@@ -765,8 +765,11 @@ htp_status_t htp_mpart_part_handle_data(htp_multipart_part_t *part, const unsign
             case MULTIPART_PART_PREAMBLE:
             case MULTIPART_PART_TEXT:
             case MULTIPART_PART_UNKNOWN:
-                // Make a copy of the data in RAM.
-                bstr_builder_append_mem(part->parser->part_data_pieces, data, len);
+                // Make a copy of the data in RAM, unless that was already done above
+                // (unknown part after the last boundary).
+                if (!((part->parser->multipart.flags & HTP_MULTIPART_SEEN_LAST_BOUNDARY) && (part->type == MULTIPART_PART_UNKNOWN))) {
+                    bstr_builder_append_mem(part->parser->part_data_pieces, data, len);
+                }
                 break;
 
             case MULTIPART_PART_FILE:
